@@ -469,9 +469,12 @@ NeverAcceptWrong == [][(last'.op = "readsp" /\ last'.res = "ok") => \E x \in Han
 NeverAcceptWrongX == [][(last'.op = "readsp" /\ last'.res = "ok" /\ "D3-leak" \notin tainted') => \E x \in Handles : last'.args = <<x>> /\ last'.val = {h'[x].id}]_vars
 Recoverable(p, i) == \/ Valid(p, i)
                      \/ i \in DOMAIN mem[p] \/ (cacheEx[p] /\ i \in DOMAIN cacheF[p])
+HasPayload(r) == r.doc # NoDoc \/ r.files # NoFiles
 RepairFrame == [][last'.op = "repair" => \A p \in Projects :
-                    /\ {<<ws[p][i].doc, ws[p][i].files>> : i \in Dirs(p)} = {<<ws'[p][i].doc, ws'[p][i].files>> : i \in Dirs(p)'}
-                    /\ Cardinality(Dirs(p)) = Cardinality(Dirs(p)')]_vars
+                    \* no document or data file of any job changes (directories may be renamed; a directory that holds nothing
+                    \* at all - no state point, document or file - may be taken over by a misnamed one)
+                    {<<ws[p][i].doc, ws[p][i].files>> : i \in {i \in Dirs(p) : HasPayload(ws[p][i])}}
+                      = {<<ws'[p][i].doc, ws'[p][i].files>> : i \in {i \in Dirs(p)' : HasPayload(ws'[p][i])}}]_vars
 RepairRestores == [][\A p \in Projects : (last'.op = "repair" /\ last'.args = <<p>>) =>
                     /\ \A i \in Dirs(p) : (Recoverable(p, i) /\ (\A i2 \in DOMAIN mem[p] : mem[p][i2] = i2)) => (i \in Dirs(p)' /\ ValidIn(ws', p, i))
                     /\ (last'.res = "ok" => \A i \in Dirs(p)' : ValidIn(ws', p, i))]_vars
